@@ -172,16 +172,56 @@ type (
 	IvOuterM struct {
 		B map[string]IvUint `frugal:"2,default,map<string:IvUint>"`
 	}
+
+	// invalid two struct levels down, intermediate level reached by pointer / list / map value
+	IvMidP struct {
+		Bad *IvUint `frugal:"1,optional,IvUint"`
+	}
+	IvDeepP struct {
+		X int32   `frugal:"1,default,i32"`
+		M *IvMidP `frugal:"2,optional,IvMidP"`
+	}
+	IvMidL struct {
+		Bad []*IvDupID `frugal:"1,default,list<IvDupID>"`
+	}
+	IvDeepL struct {
+		M []*IvMidL `frugal:"2,default,list<IvMidL>"`
+	}
+	IvMidM struct {
+		Bad IvF32 `frugal:"1,default,IvF32"`
+	}
+	IvDeepM struct {
+		M map[int32]*IvMidM `frugal:"2,default,map<i32:IvMidM>"`
+	}
+	// mutually recursive types (by value through lists) one of which has an invalid field
+	IvCycA struct {
+		B   []IvCycB `frugal:"1,default,list<IvCycB>"`
+		Bad *IvUint  `frugal:"2,optional,IvUint"`
+	}
+	IvCycB struct {
+		A []IvCycA `frugal:"1,default,list<IvCycA>"`
+	}
+	// the same through pointers
+	IvCycPA struct {
+		B   *IvCycPB `frugal:"1,optional,IvCycPB"`
+		Bad *IvUint  `frugal:"2,optional,IvUint"`
+	}
+	IvCycPB struct {
+		A *IvCycPA `frugal:"1,optional,IvCycPA"`
+	}
 )
 
 type ivCase struct {
 	name string
 	ptr  func() interface{}
 	val  func() interface{}
+	also []func() interface{} // types reached from it that must be rejected as well, after it was
 }
 
+func ivAlso(c ivCase, f ...func() interface{}) ivCase { c.also = f; return c }
+
 func ivc[T any](name string) ivCase {
-	return ivCase{name, func() interface{} { return new(T) }, func() interface{} { var z T; return z }}
+	return ivCase{name: name, ptr: func() interface{} { return new(T) }, val: func() interface{} { var z T; return z }}
 }
 
 var ivCases = []ivCase{
@@ -197,6 +237,13 @@ var ivCases = []ivCase{
 	ivc[IvDupID]("duplicate-id"), ivc[IvIDText]("non-numeric-id"), ivc[IvIDBig]("id-65536"), ivc[IvIDNeg]("negative-id"), ivc[IvIDEmpty]("empty-id"),
 	ivc[IvReqBad]("unknown-requiredness"), ivc[IvOptBad]("unknown-option"), ivc[IvNoCopyI]("nocopy-on-int"), ivc[IvNoCopy2]("duplicate-nocopy"), ivc[IvNoCopyL]("nocopy-on-list"),
 	ivc[IvOuterP]("nested-invalid-via-pointer"), ivc[IvOuterL]("nested-invalid-via-list"), ivc[IvOuterM]("nested-invalid-via-map-value"),
+	ivAlso(ivc[IvDeepP]("invalid-two-levels-down-via-pointer"), func() interface{} { return new(IvMidP) }),
+	ivAlso(ivc[IvDeepL]("invalid-two-levels-down-via-list"), func() interface{} { return new(IvMidL) }),
+	ivAlso(ivc[IvDeepM]("invalid-two-levels-down-via-map"), func() interface{} { return new(IvMidM) }),
+	ivAlso(ivc[IvCycA]("mutual-recursion-by-value-with-invalid-member"), func() interface{} { return &IvCycB{A: []IvCycA{{Bad: &IvUint{}}}} }),
+	ivAlso(ivc[IvCycB]("mutual-recursion-by-value-reaching-invalid-member"), func() interface{} { return new(IvCycA) }),
+	ivAlso(ivc[IvCycPA]("mutual-recursion-by-pointer-with-invalid-member"), func() interface{} { return &IvCycPB{A: &IvCycPA{Bad: &IvUint{}}} }),
+	ivAlso(ivc[IvCycPB]("mutual-recursion-by-pointer-reaching-invalid-member"), func() interface{} { return new(IvCycPA) }),
 }
 
 // arguments that are not a (pointer to a) struct
@@ -264,6 +311,13 @@ func VerifInvalidDef() {
 	vrt.SetOwner("user")
 	p := c.ptr()
 	v := c.val()
+	defer func() {
+		// everything that reaches the invalid definition must be rejected too, whatever was registered before
+		for _, f := range c.also {
+			ivRejected(f(), nil, c.name)
+		}
+		vrt.Reach("end")
+	}()
 	switch vrt.Choice("order", 3) {
 	case 0:
 		ivRejected(p, v, c.name)
@@ -282,7 +336,6 @@ func VerifInvalidDef() {
 		ivRejected(p, v, c.name)
 		siblingOK(ops_Leaf)
 	}
-	vrt.Reach("end")
 }
 
 // VerifInvalidArg: arguments that are not (pointers to) structs.
